@@ -346,7 +346,13 @@ class Judge:
         self.stats['records_checked'] += 1
         rprop = 'C12' if loc.tree else 'C18'
         if kind == 'log':
+            if not lr.get('log_valid', True):
+                return
             exp = lr['log']
+            if lr.get('quiet'):
+                if got not in ([], None) and got != []:
+                    self.disc(rprop, 'I-records', op['i'], f'{name}: log holds messages although the run that produced the result logged nothing', got=(got or [])[:8], run=lr['run'])
+                return
             if got is None:
                 self.disc(rprop, 'I-records', op['i'], f'{name}: no log beside the result', expected=exp)
                 return
@@ -549,6 +555,9 @@ class Judge:
 
     def j_disarm(self, op, o):
         self.proc['faults'].clear()
+
+    def j_quietlog(self, op, o):
+        self.proc['quiet'] = bool(op.get('on', True))
 
     def j_ls(self, op, o):
         store = op.get('store', 'main')
@@ -815,6 +824,7 @@ class Eval:
                 'params_at_run': dict(it.all_params),
                 'input_keys': sorted([t.slug, self.j.key_of_D.get(t.D)] for t in it.inputs.values()) if chain['pmode'] else None,
                 'slugD': (it.slug, it.D),
+                'quiet': bool(self.j.proc.get('quiet')),
                 't_body': rec.get('started'),
                 't_op': (self.o.get('clock') or [None])[0],
             }
@@ -826,8 +836,9 @@ class Eval:
             loc.tainted = True     # a run of it failed: what is asked of later requests is C05's "always recovers"
 
         if loc is not None and started and loc.last_run:
-            # a failed attempt has rewritten the log; the property speaks about records after a successful run only
-            loc.last_run = dict(loc.last_run, valid=False)
+            # a failed attempt has rewritten the log (nothing is demanded of it then); the run info still belongs to the
+            # run that produced the stored result
+            loc.last_run = dict(loc.last_run, log_valid=False)
         if loc is not None and it.kind == 'dir' and started:
             loc.err_dir = True
             loc.err_partial = bool(set_aside == 'partial')
